@@ -13,6 +13,7 @@ import (
 	"strings"
 	"sync"
 	"sync/atomic"
+	"time"
 
 	"github.com/xinchentechnote/fin-protoc/internal/model"
 	"github.com/xinchentechnote/fin-protoc/internal/parser"
@@ -325,5 +326,21 @@ func dump(b *strings.Builder, v reflect.Value, seen map[uintptr]int, depth int) 
 		fmt.Fprintf(b, "%q", v.String())
 	default:
 		fmt.Fprintf(b, "%v", v)
+	}
+}
+
+// WithTimeout runs f in a goroutine and reports whether it returned within d. A function that
+// does not return cannot be stopped; the caller is expected to end the process soon after.
+func WithTimeout(d time.Duration, f func()) bool {
+	done := make(chan struct{})
+	go func() {
+		defer close(done)
+		f()
+	}()
+	select {
+	case <-done:
+		return true
+	case <-time.After(d):
+		return false
 	}
 }
